@@ -8,3 +8,4 @@ import Ymq.Props.C19Wied
 #print axioms Ymq.C19Wied.mulp_spec
 #print axioms Ymq.C19Wied.mulp_overflow_witness
 #print axioms Ymq.C19Wied.detp4_lane_of_model
+#print axioms Ymq.C19Wied.detp4_lane_of_norm
